@@ -581,3 +581,92 @@ twin('c10-twin-logging', ['C10'], DRV,
 twin('c10-twin-const-status', ['C10'], DRV,
      "        print('shtab not found; install via `pip install shtab`')\n        return 1",
      "        print('shtab not found; install via `pip install shtab`')\n        return 2")
+
+# ------------------------------------------------------------ C08 C11 C18
+FND = 'bfg9000/builtins/find.py'
+mutant('c08-extra-not-replayed', ['C08', 'C11', 'C18'], FND,
+       "            for i in cached.extra:\n"
+       "                extra_types[_path_type(i)](i, dist=dist)\n", "",
+       'CACHE-REPLAY')
+mutant('c08-hit-path-ignores-dist', ['C08', 'C11', 'C18'], FND,
+       "            return [types[_path_type(i)](i, dist=dist) for i in cached.found]",
+       "            return [types[_path_type(i)](i) for i in cached.found]",
+       'CACHE-REPLAY')
+mutant('c08-exec-outside-push-path', ['C08', 'C18'], 'bfg9000/build.py',
+       "    with pushd(path.parent().string(context.env.base_dirs)), \\\n"
+       "         context.push_path(path) as p:\n",
+       "    with pushd(path.parent().string(context.env.base_dirs)), \\\n"
+       "         context.push_path(context.path if run_hooks is None else path) as p:\n",
+       'REGEN-INPUTS')
+mutant('c08-submodules-not-bootstrap', ['C08', 'C18'], 'bfg9000/build.py',
+       "    for i in chain(context.seen_paths[1:], opts_paths):",
+       "    for i in opts_paths:", 'REGEN-INPUTS')
+mutant('c08-no-toolchain-input', ['C08'], 'bfg9000/builtins/regenerate.py',
+       "    return build_inputs.bootstrap_paths + listify(env.toolchain.path) + extra",
+       "    return build_inputs.bootstrap_paths + extra", 'REGEN-INPUTS')
+mutant('c08-immediate-not-output', ['C08'], 'bfg9000/builtins/file_types.py',
+       "    context.build['regenerate'].outputs.append(file)\n", "",
+       'REGEN-INPUTS')
+mutant('c08-seen-dirs-dropped', ['C08'], FND,
+       "        context.build['find_cache'].add(file_filter, found, extra)\n"
+       "        context.build['find_dirs'].update(seen_dirs)\n    return results",
+       "        context.build['find_cache'].add(file_filter, found, extra)\n"
+       "    return results", 'FIND-DIRS')
+mutant('c08-depfile-not-requested', ['C08'], FND,
+       "        context.build['regenerate'].depfile = depfile_name\n", "        pass\n",
+       'FIND-DIRS')
+mutant('c08-make-no-include', ['C08'], FND,
+       "        buildfile.include(depfile_name)\n", "", 'FIND-DIRS')
+mutant('c08-only-top-dir-recorded', ['C08'], FND,
+       "            if seen_dirs is not None:\n                seen_dirs.append(base)\n",
+       "            if seen_dirs is not None and base == p:\n"
+       "                seen_dirs.append(base)\n", 'FIND-DIRS')
+mutant('c11-prune-on-exclude', ['C11'], FND,
+       "                if m == FindResult.exclude_recursive:",
+       "                if m >= FindResult.exclude if False else m in (FindResult.exclude, FindResult.exclude_recursive):",
+       'RESULT-LATTICE')
+mutant('c11-and-is-min', ['C11'], FND,
+       "        return type(self)(max(self.value, rhs.value))",
+       "        return type(self)(min(self.value, rhs.value))", 'RESULT-LATTICE',
+       count=1)
+mutant('c11-not-now-in-results', ['C11'], FND,
+       "        elif matched == FindResult.not_now:\n            if cache:\n"
+       "                extra.append(path)\n"
+       "            extra_types[_path_type(path)](path, dist=dist)",
+       "        elif matched == FindResult.not_now:\n            if cache:\n"
+       "                extra.append(path)\n"
+       "            results.append(extra_types[_path_type(path)](path, dist=dist))",
+       'RESULT-LATTICE')
+mutant('c11-extra-before-exclude', ['C11'], FND,
+       "        if any(i.match(path) for i in self.exclude):\n"
+       "            return FindResult.exclude_recursive\n\n"
+       "        skip_base",
+       "        if any(i.match(path) for i in self.extra):\n"
+       "            return FindResult.not_now\n\n"
+       "        if any(i.match(path) for i in self.exclude):\n"
+       "            return FindResult.exclude_recursive\n\n"
+       "        skip_base", 'RESULT-LATTICE')
+mutant('c18-static-file-ignores-dist', ['C18'], 'bfg9000/builtins/file_types.py',
+       "    if dist and path.root == Root.srcdir:", "    if path.root == Root.srcdir:",
+       'SOURCE-REGISTRATION')
+mutant('c18-header-no-dist-forward', ['C18'], 'bfg9000/builtins/file_types.py',
+       "    return static_file(context, HeaderFile, path, dist, [('lang', lang)])",
+       "    return static_file(context, HeaderFile, path, True, [('lang', lang)])",
+       'SOURCE-REGISTRATION')
+mutant('c18-dist-skips-bootstrap', ['C18'], 'bfg9000/build_inputs.py',
+       "        return chain((File(i) for i in self.bootstrap_paths),\n"
+       "                     self._sources.values())",
+       "        return chain(self._sources.values())", 'SOURCE-REGISTRATION')
+mutant('c18-extra-deps-unregistered', ['C18'], 'bfg9000/build_inputs.py',
+       "            if f.path.root == Root.srcdir:\n"
+       "                return build.add_source(f)\n            return f",
+       "            return f", 'add_source')
+twin('c08-twin-hit-path-shape', ['C08', 'C11', 'C18'], FND,
+     "            for i in cached.extra:\n"
+     "                extra_types[_path_type(i)](i, dist=dist)\n"
+     "            return [types[_path_type(i)](i, dist=dist) for i in cached.found]",
+     "            results = [types[_path_type(i)](i, dist=dist)\n"
+     "                       for i in cached.found]\n"
+     "            for j in cached.extra:\n"
+     "                extra_types[_path_type(j)](j, dist=dist)\n"
+     "            return results")
